@@ -35,7 +35,9 @@ ASSUMPTIONS = ["tasks are hashable with lawful __eq__/__hash__ (tokens mapped to
                "CPython dict preserves insertion order; heapq and bisect.insort meet their documented contracts"]
 TRUSTED = ["Model/C10_Model.v is hand-written; tied to boltons.queueutils / boltons.listutils.BarrelList by the correspondence run",
            "heapq is modelled as the algorithm of Lib/heapq.py (heappush/heappop, _siftdown/_siftup), which _heapq.c is trusted to implement; bisect.insort_right as binary search + insert",
-           "harness/c10.py serialiser"]
+           "harness/c10.py serialiser",
+           "harness/translators/{py2coq,c10_src}.py (Gen/C10_Src.v: _translate_index regenerated from the source on every run; "
+           "C10_translate_index_src_eq proves it equal to the model function)"]
 
 class _Collide:
     """hashable task whose hash collides with every other _Collide (dict probing by __eq__)"""
@@ -119,6 +121,16 @@ def prio_obj(rank, rep):
     if rep == 4 and even:
         return float(rank // 2) + 0.0
     return rank / 2
+
+
+def translators(repo):
+    """(T) tie: Gen/C10_Src.v = BarrelList._translate_index regenerated from the current source (fail closed);
+    Proofs/C10_SrcEq.v proves it equal to Model.translate_index."""
+    import os
+    import sys
+    sys.path.insert(0, os.path.join(os.path.dirname(os.path.abspath(__file__)), "translators"))
+    import c10_src
+    return c10_src.generate(repo)
 
 
 # --------------------------------------------------------------------------
